@@ -41,6 +41,8 @@ PARENTS = {  # kind -> positions
     "add": ["l", "r"], "sub": ["l", "r"], "mul": ["l", "r"], "div": ["l", "r"], "neg": ["a"],
     "eq": ["l", "r"], "lt": ["l", "r"], "like": ["l", "p"], "in": ["l", "v"], "between": ["l", "lo", "hi"],
     "notin": ["l", "v"], "in-negated": ["l", "v"], "notlike": ["l", "p"], "notnull": ["l"],
+    # a caller-defined subclass of the arithmetic node as parent (operands are ordinary nodes)
+    "add-subclass": ["l", "r"], "sub-subclass": ["l", "r"], "mul-subclass": ["l", "r"], "div-subclass": ["l", "r"],
     "bracket": ["a"], "any": ["l", "r"], "all": ["l", "r"], "any3": ["l", "r"],
     "isnull": ["l"], "not": ["a"], "and": ["l", "r"], "or": ["l", "r"], "xor": ["l", "r"], "fn": ["a0", "a1"], "mod": ["a0", "a1"],
     "case": ["c", "t", "e"],
@@ -69,6 +71,8 @@ def mk(kind, names, **child):
     g = lambda pos: child.get(pos) or names.field()  # noqa: E731
     if kind in ("add", "sub", "mul", "div"):
         return {"t": "bin", "o": {"add": "+", "sub": "-", "mul": "*", "div": "/"}[kind], "l": g("l"), "r": g("r")}
+    if kind.endswith("-subclass"):
+        return {"t": "bin", "o": {"add": "+", "sub": "-", "mul": "*", "div": "/"}[kind.split("-")[0]], "l": g("l"), "r": g("r"), "cls": "subclass"}
     if kind == "neg":
         return {"t": "neg", "a": g("a")}
     if kind in ("eq", "lt"):
@@ -104,6 +108,19 @@ def mk(kind, names, **child):
     if kind == "case":
         return {"t": "case", "w": [[child.get("c") or mk("eq", names), g("t")]], "e": g("e")}
     raise ValueError(kind)
+
+
+_AMOUNT = None
+
+
+def _amount_class(reg):
+    """A caller's own subclass of the arithmetic node (adds nothing)."""
+    global _AMOUNT
+    if _AMOUNT is None:
+        class Amount(reg["ArithmeticExpression"]):
+            pass
+        _AMOUNT = Amount
+    return _AMOUNT
 
 
 def triple(parent, pos, child_kind):
@@ -227,6 +244,10 @@ def build(t):
     if k == "c":
         return reg["NullValue"]() if t["v"] is None else reg["ValueWrapper"](t["v"])
     try:
+        if k == "bin" and t.get("cls") == "subclass":
+            l, r = build(t["l"]), build(t["r"])
+            A = reg["Arithmetic"]
+            return _amount_class(reg)({"+": A.add, "-": A.sub, "*": A.mul, "/": A.div}[t["o"]], l, r)
         if k == "bin":
             l, r = build(t["l"]), build(t["r"])
             return {"+": l.__add__, "-": l.__sub__, "*": l.__mul__, "/": l.__truediv__}[t["o"]](r)
